@@ -828,7 +828,16 @@ func TypeConforms(ctx map[ast.Variable]ast.BaseTerm, left ast.BaseTerm, right as
 				strings.HasPrefix(leftConst.Symbol, rightConst.Symbol+"/") {
 				return true // a name type conforms to its proper prefixes (at a '/' boundary)
 			}
-			return leftConst.Type == ast.NameType && rightConst.Equals(ast.NameBound)
+			if !rightConst.Equals(ast.NameBound) {
+				return false
+			}
+			// A user-defined name type conforms to /name. The built-in base types are written as
+			// name constants too, but their members are not names.
+			switch leftConst {
+			case ast.AnyBound, ast.Float64Bound, ast.NumberBound, ast.StringBound, ast.BytesBound, ast.TimeBound, ast.DurationBound:
+				return false
+			}
+			return leftConst.Type == ast.NameType
 		}
 	}
 	// fn:Singleton(c) <: T if c is a member of T.
